@@ -32,7 +32,7 @@ def _materialised_premise(prog: Program, cname: str) -> bool:
                 rejects_edge_mode = True
     wires = False
     for c in calls_in(init.node):
-        if (dotted(c.func) or "").endswith("NodeExpandedDiGraph") and kwarg(c, "additional_starts") is not None and kwarg(c, "additional_ends") is not None:
+        if (dotted(c.func) or "").endswith("NodeExpandedDiGraph") and kwarg(c, "additional_starts", 4) is not None and kwarg(c, "additional_ends", 5) is not None:
             wires = True
     return rejects_edge_mode and wires
 
@@ -54,7 +54,7 @@ def stgraph_starts_rule(prog: Program, rep, RID: str) -> int:
                     continue
                 n += 1
                 key = f"{cls.name}.{m.name}:{d.split('.')[-1]}({g})"
-                a, b = kwarg(c, "additional_starts"), kwarg(c, "additional_ends")
+                a, b = kwarg(c, "additional_starts", 1), kwarg(c, "additional_ends", 2)
                 if a is not None and b is not None and "additional_starts" in norm(a) and "additional_ends" in norm(b):
                     rep.ok(RID, key, f"gets additional_starts={norm(a)}, additional_ends={norm(b)}", m.loc(c))
                 elif cls.name in MATERIALISED:
@@ -84,11 +84,11 @@ def node_expansion_fill_rule(prog: Program, rep, RID: str) -> int:
             for c in calls_in(m.node):
                 if not (dotted(c.func) or "").endswith("NodeExpandedDiGraph"):
                     continue
-                if kwarg(c, "additional_starts") is None and kwarg(c, "additional_ends") is None:
+                if kwarg(c, "additional_starts", 4) is None and kwarg(c, "additional_ends", 5) is None:
                     continue
                 n += 1
                 key = f"{cls.name}.{m.name}:NodeExpandedDiGraph"
-                flag = kwarg(c, "try_filling_in_missing_flow_attr")
+                flag = kwarg(c, "try_filling_in_missing_flow_attr", 2)
                 if isinstance(flag, ast.Constant) and flag.value is True:
                     rep.ok(RID, key, "additional starts / ends are passed together with try_filling_in_missing_flow_attr=True", m.loc(c))
                 else:
@@ -206,7 +206,7 @@ def node_expansion_length_rule(prog: Program, rep, RID: str) -> int:
                 continue
             n += 1
             key = f"{cls.name}.__init__:NodeExpandedDiGraph(node_length_attr)@{c.lineno - init.node.lineno}"
-            v = kwarg(c, "node_length_attr")
+            v = kwarg(c, "node_length_attr", 3)
             if v is not None and norm(v) in ("length_attr", "self.length_attr"):
                 rep.ok(RID, key, "the node expansion gets the length attribute", init.loc(c))
             else:
@@ -289,3 +289,212 @@ def flow_safe_override_rule(prog: Program, rep, RID: str, cname: str = "kFlowDec
             raise AnalysisError(f"{cname}.__init__: `{opt}` is neither switched off nor rejected where flow-safe paths are installed")
     return n
 
+
+
+# ---------------------------------------------------------------------------------------------------------------------------
+# option dictionaries: None stands for "no option given"
+# ---------------------------------------------------------------------------------------------------------------------------
+
+_MAPPING_ATTRS = {"get", "copy", "items", "keys", "values", "update", "pop", "setdefault"}
+
+
+def _parents(root) -> Dict[int, ast.AST]:
+    par = {}
+    for n in ast.walk(root):
+        for c in ast.iter_child_nodes(n):
+            par[id(c)] = n
+    return par
+
+
+def _mentions(node, text: str) -> bool:
+    return any(norm(x) == text for x in ast.walk(node))
+
+
+def _guarded(node, par, text: str) -> bool:
+    """node is evaluated only when `text` was tested (truthiness / is not None / isinstance) on the way"""
+    cur = node
+    while id(cur) in par:
+        p = par[id(cur)]
+        if isinstance(p, ast.IfExp) and cur is p.body and _mentions(p.test, text):
+            return True
+        if isinstance(p, ast.IfExp) and cur is p.orelse and _mentions(p.test, text) and ("is None" in norm(p.test) or norm(p.test).startswith("not ")):
+            return True
+        if isinstance(p, ast.If) and any(cur is s for s in p.body) and _mentions(p.test, text):
+            return True
+        if isinstance(p, ast.BoolOp) and isinstance(p.op, ast.And) and any(_mentions(v, text) for v in p.values[:p.values.index(cur)] if cur in p.values):
+            return True
+        if isinstance(p, ast.BoolOp) and isinstance(p.op, ast.Or) and cur is p.values[0] and norm(cur) == text:
+            # `(x or {})`: x itself is only tested here
+            return True
+        cur = p
+    return False
+
+
+def _in_orelse_of_none_test(node, par, text: str) -> bool:
+    cur = node
+    while id(cur) in par:
+        p = par[id(cur)]
+        if isinstance(p, ast.If) and any(cur is s for s in p.orelse) and _mentions(p.test, text) and ("is None" in norm(p.test) or norm(p.test).startswith("not ")):
+            return True
+        cur = p
+    return False
+
+
+def _mapping_derefs(root, text: str) -> List[ast.AST]:
+    out = []
+    for n in ast.walk(root):
+        if isinstance(n, ast.Attribute) and norm(n.value) == text and n.attr in _MAPPING_ATTRS:
+            out.append(n)
+        elif isinstance(n, ast.Subscript) and norm(n.value) == text:
+            out.append(n)
+        elif isinstance(n, ast.Compare) and any(isinstance(o, (ast.In, ast.NotIn)) for o in n.ops) and any(norm(c) == text for c in n.comparators):
+            out.append(n)
+        elif isinstance(n, ast.keyword) and n.arg is None and norm(n.value) == text:
+            out.append(n)
+        elif isinstance(n, ast.Dict) and any(k is None and norm(v) == text for k, v in zip(n.keys, n.values)):
+            out.append(n)
+    return out
+
+
+def options_none_safe(prog: Program, rep, RID: str) -> int:
+    """solver_options / optimization_options: the base classes document None as 'no option given'; every class that uses the dictionary
+    (get / [] / in / ** / copy) either normalises None to {} when it stores it or tests it before each use."""
+    n = 0
+    for ci in prog.all_classes():
+        init = ci.methods.get("__init__")
+        if init is None:
+            continue
+        params = [a.arg for a in init.node.args.args + init.node.args.kwonlyargs if a.arg in ("solver_options", "optimization_options")]
+        for p in params:
+            par = _parents(init.node)
+            rebound = [st for st in ast.walk(init.node) if isinstance(st, ast.Assign) and any(isinstance(t, ast.Name) and t.id == p for t in st.targets)
+                       and ("{}" in norm(st.value) or "dict(" in norm(st.value))]
+            key = f"{ci.name}.__init__:{p}"
+            n += 1
+            bad = None
+            if not rebound:
+                for d in _mapping_derefs(init.node, p):
+                    if not _guarded(d, par, p):
+                        bad = (init, d, f"`{norm(par.get(id(d), d))[:70]}` uses the parameter although it may be None")
+                        break
+            stores = [st for st in ast.walk(init.node) if isinstance(st, ast.Assign) and any(norm(t) == f"self.{p}" for t in st.targets)]
+            # (the program model writes `self.a = x if x is not None else {}` as an if / else of two stores)
+            raw = [st for st in stores if isinstance(st.value, ast.Name) and st.value.id == p and not _guarded(st, par, p) and not _in_orelse_of_none_test(st, par, p)] \
+                if not rebound else []
+            fixed_later = any(isinstance(st, ast.If) and _mentions(st.test, f"self.{p}") and "None" in norm(st.test) and
+                              any(isinstance(x, ast.Assign) and any(norm(t) == f"self.{p}" for t in x.targets) for x in st.body) for st in ast.walk(init.node))
+            if bad is None and raw and not fixed_later:
+                for m in ci.methods.values():
+                    mpar = _parents(m.node)
+                    for d in _mapping_derefs(m.node, f"self.{p}"):
+                        if not _guarded(d, mpar, f"self.{p}"):
+                            bad = (m, d, f"the parameter is stored as it came and `{norm(mpar.get(id(d), d))[:70]}` ({m.name}) uses it as a dictionary")
+                            break
+                    if bad:
+                        break
+            if bad:
+                m, d, why = bad
+                rep.violation(RID, key, f"{why}: {p}=None - the default the base classes document for 'no option given' - raises TypeError / AttributeError instead of "
+                              "running with the defaults", m.loc(d))
+            else:
+                rep.ok(RID, key, "None is normalised to {} (or tested) before the dictionary is used", init.loc())
+    if n < 10:
+        raise AnalysisError(f"only {n} option parameters found")
+    return n
+
+
+def default_k_handled(prog: Program, rep, RID: str) -> int:
+    """A class that declares k=None reads None as 'choose k' (the width of the graph / the guessed lower bound): None is replaced before
+    the base class compares k with 0."""
+    n = 0
+    for ci in prog.all_classes():
+        init = ci.methods.get("__init__")
+        if init is None:
+            continue
+        args = init.node.args
+        pos = args.args
+        defaults = dict(zip([a.arg for a in pos[len(pos) - len(args.defaults):]], args.defaults))
+        defaults.update({a.arg: d for a, d in zip(args.kwonlyargs, args.kw_defaults) if d is not None})
+        d = defaults.get("k")
+        if d is None or not (isinstance(d, ast.Constant) and d.value is None):
+            continue
+        n += 1
+        key = f"{ci.name}.__init__:k-default"
+        tests = [c for c in ast.walk(init.node) if isinstance(c, ast.Compare) and norm(c.left) in ("k", "self.k") and len(c.ops) == 1 and
+                 isinstance(c.ops[0], (ast.Is, ast.IsNot)) and norm(c.comparators[0]) == "None"]
+        if tests:
+            rep.ok(RID, key, "k=None is replaced by a computed value before it is validated", init.loc(tests[0]))
+        else:
+            rep.violation(RID, key, f"{ci.name} declares k=None but never tests it: the default is passed on to the base class, whose `k <= 0` raises TypeError - "
+                          f"{ci.name}(G) with the documented default cannot be constructed (the sibling models replace None by the width of the graph)", init.loc())
+    if n < 3:
+        raise AnalysisError(f"only {n} classes with a default k=None found")
+    return n
+
+
+def additional_nodes_typed(prog: Program, rep, RID: str) -> int:
+    """get_expanded_edge maps nodes *and* edges of the original graph; the translation of additional starts / ends goes through it, so an
+    edge given as a start / end node has to be rejected before (it would become the middle of a node of the expanded graph)."""
+    ci = prog.cls("NodeExpandedDiGraph")
+    n = 0
+    for mname in ("get_expanded_additional_starts", "get_expanded_additional_ends"):
+        m = ci.methods.get(mname)
+        if m is None:
+            raise AnalysisError(f"NodeExpandedDiGraph.{mname} not found")
+        n += 1
+        key = f"NodeExpandedDiGraph.{mname}:nodes-only"
+        uses = [c for c in calls_in(m.node) if isinstance(c.func, ast.Attribute) and c.func.attr == "get_expanded_edge"]
+        if not uses:
+            rep.ok(RID, key, "the translation does not go through get_expanded_edge", m.loc())
+            continue
+
+        def rejects(fn) -> bool:
+            for i in ast.walk(fn):
+                if isinstance(i, ast.If) and any(isinstance(x, ast.Raise) and "ValueError" in norm(x) for x in ast.walk(i)) and \
+                        ("original_G" in norm(i.test) or "isinstance" in norm(i.test)):
+                    return True
+            return False
+        ok_ = rejects(m.node)
+        for c in calls_in(m.node):
+            if isinstance(c.func, ast.Attribute) and norm(c.func.value) == "self" and c.func.attr in ci.methods and c.func.attr != "get_expanded_edge":
+                ok_ = ok_ or rejects(ci.methods[c.func.attr].node)
+            elif isinstance(c.func, ast.Name):
+                try:
+                    ok_ = ok_ or rejects(prog.function(m.module.name, c.func.id).node)
+                except Exception:
+                    pass
+        if ok_:
+            rep.ok(RID, key, "entries that are not nodes of the original graph raise ValueError before the translation", m.loc())
+        else:
+            rep.violation(RID, key, f"`{norm(uses[0])}` also translates an edge (u, v) of the original graph (to ('u.1', 'v.0')): additional_ends=[('a', 'c')] becomes the "
+                          "end node 'c.0', passes the membership test of the source-sink graph and the model reports solved with a path ending in the middle of a node - "
+                          "an unknown additional start / end node is not rejected", m.loc(uses[0]), self_contained=True)   # (every callee of the method was looked into)
+    return n
+
+
+def fill_in_uses_global_terminals(prog: Program, rep, RID: str) -> int:
+    """The fill-in of missing flow values solves an auxiliary flow from a super source to a super sink.  The expansion hangs the additional
+    starts / ends on a global source / sink of its own; flow entering or leaving there needs an arc from the super source / to the super sink,
+    otherwise the auxiliary flow is infeasible exactly when an additional start or end is needed and the fill-in is skipped silently."""
+    ci = prog.cls("NodeExpandedDiGraph")
+    f = ci.methods.get("_try_filling_in_missing_flow_values")
+    if f is None:
+        raise AnalysisError("NodeExpandedDiGraph._try_filling_in_missing_flow_values not found")
+    has_globals = any("global_source_id" in norm(st) for st in ast.walk(ci.methods["__init__"].node) if isinstance(st, ast.Assign))
+    key = "NodeExpandedDiGraph._try_filling_in_missing_flow_values:global-terminals"
+    if not has_globals:
+        rep.ok(RID, key, "the expansion has no global source / sink of its own", f.loc())
+        return 1
+    adds = [c for c in calls_in(f.node) if isinstance(c.func, ast.Attribute) and c.func.attr == "add_edge" and len(c.args) >= 2]
+    if not adds:
+        raise AnalysisError("fill-in: arcs of the auxiliary network not found")
+    src = [c for c in adds if "global_source_id" in norm(c.args[1]) and "source" in norm(c.args[0])]
+    snk = [c for c in adds if "global_sink_id" in norm(c.args[0]) and "sink" in norm(c.args[1])]
+    if src and snk:
+        rep.ok(RID, key, "the super source feeds the global source and the global sink drains into the super sink", f.loc(src[0]))
+    else:
+        missing = [w for w, l in (("super source -> global source", src), ("global sink -> super sink", snk)) if not l]
+        rep.violation(RID, key, f"the auxiliary flow of the fill-in has no arc {' / '.join(missing)}: flow can enter only at the in-degree-0 nodes, so whenever an additional "
+                      "start is really needed (a(5) -> b(8) -> c(8) with additional_starts=['b']) the flow is infeasible and the fill-in is skipped silently, although the "
+                      "constructor demands it for additional starts / ends", f.loc(adds[0]))
+    return 1
